@@ -602,10 +602,18 @@ def shift_loop(ct: Container, rep, rule="shift-loop"):
 
 
 # ------------------------------------------------------------------------------------------------ C10
+def _table_methods(ct):
+    """the two primitives, then every other method of the class (which normally touches neither table nor slots)"""
+    first = [ct.facts("add_block"), ct.facts("remove_block")]
+    rest = [ff for ff in ct.all_facts() if ff.f.kind == "method" and ff.f.name not in ("add_block", "remove_block", "__init__", "__enter__", "new")
+            and not any(ff is x for x in first)]
+    return first + rest
+
+
 def dirty_entry(ct: Container, rep, rule="dirty-entry"):
     n = 0
-    for name in ("add_block", "remove_block"):
-        ff = ct.facts(name)
+    for ff in _table_methods(ct):
+        name = ff.f.name
         fq = f"Tdf.{name}"
         cfg = ff.cfg
         writes = ff.ev("entry_write")
@@ -647,8 +655,8 @@ def dirty_entry(ct: Container, rep, rule="dirty-entry"):
 
 def slot_position(ct: Container, rep, rule="slot-position"):
     n = 0
-    for name in ("add_block", "remove_block"):
-        ff = ct.facts(name)
+    for ff in _table_methods(ct):
+        name = ff.f.name
         fq = f"Tdf.{name}"
         cfg = ff.cfg
         for w in ff.ev("entry_write"):
@@ -869,3 +877,42 @@ def get_block_reads_disk(ct: Container, rep, rule="read-through-handle"):
             rep.fail(rule, MOD(ct), fq, pe.node, f"a path returns `{norm(pe.value)[:70]}`, which is not decoded from the handle on that path", construct=f"{fq} returns without decoding")
     if nret:
         rep.ok(rule, f"{fq}: {nret} returning path(s) each decode from the handle; nothing is stored into the object")
+
+
+def session_boundary(prog, rep, rule="session-boundary"):
+    """Entering and leaving a context neither write to the file nor cut it: __enter__ opens and parses, __exit__ flushes/closes.
+    (Purely syntactic over the two methods, so it gives a verdict even when the rest of the class cannot be modelled.)"""
+    tdf = prog.need_cls("Tdf", "basictdf")
+    enter = prog.need_method(tdf, "__enter__")
+    exit_ = prog.need_method(tdf, "__exit__")
+    handles = set()
+    for st in walk_no_nested(enter.node):
+        if isinstance(st, (ast.Assign, ast.AnnAssign)):
+            tg = st.targets[0] if isinstance(st, ast.Assign) else st.target
+            if isinstance(tg, ast.Attribute) and isinstance(tg.value, ast.Name) and tg.value.id == "self" and st.value is not None \
+                    and any(isinstance(c, ast.Call) and isinstance(c.func, ast.Attribute) and c.func.attr == "open" or isinstance(c, ast.Call) and norm(c.func) == "open" for c in ast.walk(st.value)):
+                handles.add(tg.attr)
+    if not handles:
+        raise AnalysisError("Tdf.__enter__ no longer assigns an opened file to an attribute (anchor vanished)")
+    is_h = lambda e: isinstance(e, ast.Attribute) and isinstance(e.value, ast.Name) and e.value.id == "self" and e.attr in handles
+    n = 0
+    for f in (enter, exit_):
+        fq = f"Tdf.{f.name}"
+        bad = []
+        for c in walk_no_nested(f.node):
+            if not isinstance(c, ast.Call):
+                continue
+            if isinstance(c.func, ast.Attribute) and is_h(c.func.value) and c.func.attr in ("write", "writelines", "truncate"):
+                bad.append((c, f"`{norm(c)[:70]}` writes to / cuts the file"))
+            elif isinstance(c.func, ast.Attribute) and c.func.attr in ("bwrite", "_write", "write", "bpad", "pad") and any(is_h(a) for a in c.args):
+                bad.append((c, f"`{norm(c)[:70]}` serialises into the session's handle"))
+            elif norm(c.func) in ("os.truncate", "os.ftruncate", "os.write", "shutil.copy", "shutil.copyfile", "shutil.copy2", "shutil.move", "os.replace", "os.rename"):
+                bad.append((c, f"`{norm(c)[:70]}` changes a file"))
+        n += 1
+        if bad:
+            for c, why in bad:
+                rep.fail(rule, tdf.module.path.name, fq, c, f"{why} while a context is being {'entered' if f is enter else 'left'}: bytes change outside any mutation "
+                         "(e.g. a session-level roll-back undoes the valid operations that preceded a refused one)")
+        else:
+            rep.ok(rule, f"{fq}: no write, truncate or serialisation into self.{'/'.join(sorted(handles))}", nontrivial=True)
+    rep.floor(rule, n, 2)
